@@ -4,7 +4,8 @@ package main
 //
 //	pathwalk run <top> <forests.ndjson> <cases.ndjson> <probe> <obs.ndjson>
 //
-// Materialises the TLC-generated forests under <top>, runs the C probe under the REAL ptrace runner
+// Materialises the TLC-generated forests under <top>, runs the C probe once directly (kernel truth) and
+// once under the REAL ptrace runner
 // (runner/ptrace.Runner, seccomp filter tracing the path syscalls) with a recording Handler, and
 // writes one observation line per case: the case itself, the consultations (class + path) the
 // handler received while the scripted call was trapped, and the kernel truth reported by the probe.
@@ -17,6 +18,7 @@ import (
 	"encoding/hex"
 	"fmt"
 	"os"
+	"os/exec"
 	"path/filepath"
 	"strconv"
 	"strings"
@@ -335,6 +337,25 @@ func runMain(args []string) error {
 		if err := os.WriteFile(sp, script.Bytes(), 0o644); err != nil {
 			return err
 		}
+		// kernel truth: the same script run directly (not traced), before the traced run
+		tin, err := os.Open(sp)
+		if err != nil {
+			return err
+		}
+		tcmd := exec.Command(probe, "truth")
+		tcmd.Stdin = tin
+		tcmd.Stderr = os.Stderr
+		tcmd.Dir = top
+		tout, err := tcmd.Output()
+		tin.Close()
+		if err != nil {
+			return fmt.Errorf("truth run (cases %d..%d): %w", lo, hi-1, err)
+		}
+		tlines := strings.Split(strings.TrimSpace(string(tout)), "\n")
+		if len(tlines) != hi-lo {
+			return fmt.Errorf("truth run wrote %d lines, script had %d", len(tlines), hi-lo)
+		}
+
 		in, err := os.Open(sp)
 		if err != nil {
 			return err
@@ -345,7 +366,7 @@ func runMain(args []string) error {
 		}
 		rec := &recorder{}
 		r := &ptrace.Runner{
-			Args:    []string{probe},
+			Args:    []string{probe, "trace"},
 			Env:     []string{"PATH=/usr/bin:/bin"},
 			WorkDir: top,
 			Files:   []uintptr{in.Fd(), of.Fd(), os.Stderr.Fd()},
@@ -353,7 +374,7 @@ func runMain(args []string) error {
 			Seccomp: filter,
 			Handler: rec,
 		}
-		ctx, cancel := context.WithTimeout(context.Background(), 10*time.Minute)
+		ctx, cancel := context.WithTimeout(context.Background(), 20*time.Minute)
 		res := r.Run(ctx)
 		cancel()
 		in.Close()
@@ -373,17 +394,21 @@ func runMain(args []string) error {
 		sc.Buffer(make([]byte, 1<<20), 1<<20)
 		n := 0
 		for sc.Scan() {
-			tk := strings.Fields(sc.Text())
-			if len(tk) != 6 {
+			rk := strings.Fields(sc.Text())
+			if len(rk) != 2 || n >= hi-lo {
 				return fmt.Errorf("bad probe line %q", sc.Text())
 			}
+			tk := strings.Fields(tlines[n])
+			if len(tk) != 5 {
+				return fmt.Errorf("bad truth line %q", tlines[n])
+			}
 			i := lo + n
-			if tk[0] != strconv.Itoa(i) {
-				return fmt.Errorf("probe line %d carries id %s", i, tk[0])
+			if rk[0] != strconv.Itoa(i) || tk[0] != rk[0] {
+				return fmt.Errorf("line %d carries ids %s (traced) %s (truth)", i, rk[0], tk[0])
 			}
 			c := cases[i]
 			ft := filepath.Join(top, "f"+strconv.Itoa(c.F))
-			o := obs{ID: i, Case: c, S1: used[n].s1, S2: used[n].s2, Ret: tk[1], Seen: []seen{}, Truth: []truth{}}
+			o := obs{ID: i, Case: c, S1: used[n].s1, S2: used[n].s2, Ret: rk[1], Seen: []seen{}, Truth: []truth{}}
 			for _, k := range rec.done[n] {
 				s := seen{C: k.class, Raw: k.arg, P: []string{}}
 				if k.class != "syscall" {
@@ -391,7 +416,7 @@ func runMain(args []string) error {
 				}
 				o.Seen = append(o.Seen, s)
 			}
-			for j := 2; j+1 < 6; j += 2 {
+			for j := 1; j+1 < 5; j += 2 {
 				if tk[j] == "-" {
 					continue
 				}
